@@ -1038,17 +1038,20 @@ def adapt_typehints(
         if instantiate_classes:
             init_args = parser.instantiate_classes(val)
             return typehint(**init_args)
-        if serialize:
-            val = load_value(parser.dump(val, **dump_kwargs.get()))
-        elif isinstance(val, (dict, Namespace)):
-            if is_subclass_spec(val) and get_import_path(typehint) == val.get("class_path"):
-                val = val.get("init_args")
-            val = parser.parse_object(val, defaults=sub_defaults.get() or list_item)
-        elif isinstance(val, NestedArg):
-            prev_val = prev_val if isinstance(prev_val, Namespace) else None
-            val = parser.parse_args([f"--{val.key}={val.val}"], namespace=prev_val)
-        else:
-            raise_unexpected_value(f"Type {typehint} expects a dict or Namespace", val)
+        try:
+            if serialize:
+                val = load_value(parser.dump(val, **dump_kwargs.get()))
+            elif isinstance(val, (dict, Namespace)):
+                if is_subclass_spec(val) and get_import_path(typehint) == val.get("class_path"):
+                    val = val.get("init_args")
+                val = parser.parse_object(val, defaults=sub_defaults.get() or list_item)
+            elif isinstance(val, NestedArg):
+                prev_val = prev_val if isinstance(prev_val, Namespace) else None
+                val = parser.parse_args([f"--{val.key}={val.val}"], namespace=prev_val)
+            else:
+                raise_unexpected_value(f"Type {typehint} expects a dict or Namespace", val)
+        except ArgumentError as ex:
+            raise_unexpected_value(f"Not a valid {getattr(typehint, '__name__', typehint)}: {ex}", exception=ex)
 
     # Subclass
     elif not hasattr(typehint, "__origin__") and inspect.isclass(typehint):
